@@ -410,6 +410,12 @@ for (_a, _b) in [(0, 1), (7, 8), (15, 0), (3, 11)]:
         "literal: number selection on both channels, then 2 symbolic events (data entry MSB/LSB, increment "
         "or poll, symbolic times) on channels %d/%d interleaved vs. own scanners" % (_a, _b),
         args="%d, %d" % (_a, _b), unwind=17, cost=150, tier="quick" if _a in (0, 7) else "thorough")
+for (_a, _b) in [(0, 1), (7, 8), (15, 0), (3, 11)]:
+    add("poll_literal_%d_%d" % (_a, _b), "poll::literal", ["C12", "C13", "C14", "C15", "C17", "C18"],
+        "literal histories from new(timeout): 4 symbolic events (any contributing CC, poll or reset, symbolic "
+        "times) on channels %d/%d: outputs equal the observer's" % (_a, _b),
+        args="%d, %d" % (_a, _b), unwind=17, cost=200, tier="quick" if _a in (0, 15) else "thorough",
+        timeout=3600)
 add("poll_twin", "poll::twin", ["C12", "C13", "C14", "C15", "C16", "C17"], "witness twin",
     expect="witness_fail", unwind=17)
 
